@@ -58,9 +58,12 @@ var zeroPolicy [28]byte
 
 func genAnyAssetID(rt *rapid.T) AssetID {
 	var id AssetID
-	switch rapid.IntRange(0, 5).Draw(rt, "anyPolicy") {
+	switch rapid.IntRange(0, 6).Draw(rt, "anyPolicy") {
 	case 0:
 		id.Policy = zeroPolicy
+	case 6:
+		sp := specialPolicies()
+		id.Policy = sp[rapid.IntRange(0, len(sp)-1).Draw(rt, "specialPolicy")].ID
 	case 1, 2:
 		id.Policy = foreignPolicy(rapid.IntRange(0, 3).Draw(rt, "foreignIx"))
 	default:
